@@ -517,13 +517,16 @@ def job_writer(job, P):
             continue
         d = os.path.join(job["dir"], f"c{n}")
         os.makedirs(d)
+        t0 = time.time()
         try:
             w = observe_write(P, case, d)
+            t1 = time.time()
             reads, listings, chk = [], [], []
             if w["raised"] is None and w["pack"] is not None and w["idx"] is not None:
                 reads, listings, chk = observe_read(P, case, w, d, rng)
             res = analyse_writer(box, case, w, reads, listings, chk, d, do_cat=case.get("cat", False))
             res["tb"] = w.get("tb")
+            res["ms"] = [int((t1 - t0) * 1000), int((time.time() - t0) * 1000)]
             if case.get("keep") and w.get("pack"):
                 res["files"] = {"pack": w["pack"], "idx": w.get("idx")}
             out.append(res)
